@@ -33,6 +33,14 @@ def run(chk, tier):
         # the path a user reads back is the portable one: its segments are the constructed segments, converted one by one and nothing else
         from . import c02
         c02.check_config(chk, prog, cfg, only={"scale_info::ty::path::Path"})
+    # paths built by the derive: replacement segments follow the library's rule (witnesses) and the first matching replacement wins (corpus)
+    chk.rule("R18.5", "derive side: a replace_segment replacement is accepted whenever the library accepts it as a segment (witness programs with keyword / `_` replacements type-check); "
+             "the path emitted for the corpus declarations equals new_with_replace(ident, module_path!(), replacements as written)")
+    from ..lib import witness
+    nw = witness.record(chk, "C18", tier)
+    chk.floor("R18.5", nw, 1, "C18 witness programs")
+    from . import c09
+    c09.corpus(chk, tier)
     chk.trusted += ["core::str / core::slice methods (is_ascii, strip_prefix, as_bytes, split_first, Iterator::all/position, split, join)"]
 
 
